@@ -24,6 +24,8 @@ exception, the stream position and termination.
 
 from __future__ import annotations
 
+from decimal import Decimal
+
 import io
 import struct
 
@@ -358,6 +360,12 @@ def json_values():
         "", " ", "0", "00", "0x00", "zz", "abc", "ab", "AB", "aB", "00" * 32, "00" * 33, "ff" * 31, "00" * 20, "0" * 63, "\x00", "\xe9", "\ud800",
         "\uff10\uff10", "\u0661\u0662", "1", "-1", "1.5", "true", "null", "[]", "{}", "a" * 100000, "00" * 100000, "mainnet", "testnet", "main",
         "1970-01-01T00:00:00+00:00", "2009-01-03 18:15:05+00:00", "9999-12-31T23:59:59", "0000-00-00", "m/0", "m/0h/1'", "/",
+        # instants at the two ends of the calendar, where a UTC offset steps over them
+        "0001-01-01T00:00:00+10:00", "0001-01-01T00:00:00-10:00", "9999-12-31T23:59:59-10:00", "9999-12-31T23:59:59+10:00", "0001-01-01T00:00:00+00:00",
+        "2106-02-07T06:28:16+00:00", "1969-12-31T23:59:59+00:00", "2009-01-03T18:15:05+23:59", "2009-01-03T18:15:05.999999+00:00",
+        # what a json loader hands over with parse_float / parse_int = Decimal
+        Decimal("Infinity"), Decimal("-Infinity"), Decimal("NaN"), Decimal("sNaN"), Decimal("1"), Decimal("1.5"), Decimal("1E+400"), Decimal("-0"),
+        Decimal("0.00000001"), Decimal("21000000"),
         [], [[]], [None], [0], [1, 2, 3], [""], ["00"], ["zz"], [[], []], [{}], [True], [1.5], [0] * 1000, ["00"] * 300, deep,
         {}, {"a": 1}, {"": ""}, {"00": "00"}, {"a": None}, {"a": []}, {"a": {}}, {"zz": "zz"}, {"0": 0}, deepd,
     ]
